@@ -446,7 +446,7 @@ def key_lattice(rng):
 
 # ------------------------------------------------------------------ stream builders
 def s_curve(ctx, rng):  # noqa: PLR0912, PLR0915
-    n = ctx.n(120, 3200)
+    n = ctx.n(80, 3200)
     L = {k: [] for k in ("mult", "prepared", "dmult", "mmult", "sum", "tweakadd", "tweakchain", "isx", "yeven", "mmultx")}
     xr = {k: [] for k in L}  # x outside 0..p-1: recorded divergence (OverflowError on the bindings arm)
     pl = point_lattice(rng)
@@ -1465,6 +1465,14 @@ def s_verdict(ctx, rng, register_only=False):  # noqa: PLR0912, PLR0915
     for ck, key in XK.items():
         for cs, st in SS.items():
             reg("ssa.assert", [ck, cs], f"dual.ssa.assert {hx(msg)} {hx(key)} {st}")
+    PUB = {"none_": "-", "own": hx(c), "foreign": hx(sec_of(G)), "notOnCurve": hx(b"\x02" + nx.to_bytes(32, "big")),
+           "hybrid": hx(_hybrid(Q)), "wrongLength": hx(c[1:])}
+    SCQ = dict(SC, inRange=q)
+    for cs, m in SCQ.items():
+        for cm, mm in MSG.items():
+            for ck, kt in PUB.items():
+                reg("dsa.sign", [cs, cm, ck], f"dual.dsa.sign {hx(mm)} {m} - 1 1 1 {kt}")
+            reg("ssa.sign", [cs, cm], f"dual.ssa.sign {hx(msg)} {m} {hx(mm)} 1")
     # silent payments: one p2wpkh input paying one wallet
     c1 = sec_of(_PY_MULT(7))
     spk = b"\x00\x14" + _h160(c1)
@@ -1559,7 +1567,7 @@ def s_guard(ctx, rng, register_only=False):  # noqa: PLR0915
         _GREP[ln] = (module, dotted, serving, thunk)
         lines_by_site.setdefault(site, []).append(ln)
 
-    reps = ctx.n(3, 60)
+    reps = ctx.n(2, 60)
     for _ in range(reps):
         for serving in (True, False):
             for ec in (EC, r1):
